@@ -13,7 +13,7 @@ P2  hidden state: no function rebinds or mutates a module-level object, no
 """
 import ast
 
-from ..common import get_index
+from ..common import get_index, memo_findings, cache_excuse
 from ..fx import FX, MEMO_DECORATORS
 from ..index import norm_text
 from ..report import AnalysisError
@@ -168,16 +168,18 @@ def run(rep, tier, root=None):
             rep.violation("P2.module-state", "%s: global %s" % (f.fq, g),
                           "function rebinds module-level name `%s`" % g, f.where(nodes[0]))
         for g, evs in s.global_mut.items():
-            bad = True
             ev = evs[0]
+            why = cache_excuse(ix, f, g)
+            if why is None:
+                rep.ok("P2.module-state", "%s: %s is a complete-key cache" % (f.fq, g),
+                       "keyed stores only, key contains every input of the stored value, stored objects never modified nor handed out")
+                continue
+            bad = True
             rep.violation("P2.module-state", "%s: mutates module object %s: %s" % (f.fq, g, ev.stmt_text()[:80]),
-                          "function modifies module-level object `%s` (%s)" % (g, ev.how), ev.where())
-        for d in f.node.decorator_list:
-            txt = norm_text(d)
-            if any(k in txt.split("(")[0].split(".")[-1] for k in MEMO_DECORATORS):
-                bad = True
-                rep.violation("P2.memoisation", "%s: @%s" % (f.fq, txt), "memoisation decorator keeps results between calls",
-                              f.where(d))
+                          "function modifies module-level object `%s` (%s); %s" % (g, ev.how, why), ev.where())
+        for msg, where in memo_findings(ix, f):
+            bad = True
+            rep.violation("P2.memoisation", "%s: memoised: %s" % (f.fq, msg[:100]), msg, where)
         for p, dflt in f.defaults.items():
             if isinstance(dflt, (ast.List, ast.Dict, ast.Set, ast.Call, ast.ListComp)) and p in s.mutates:
                 bad = True
